@@ -3,6 +3,7 @@
 import json
 import math
 import random
+import re
 import time
 from typing import Any, Dict, Optional
 
@@ -19,6 +20,7 @@ from .values import (
     JSFunction,
     JSRegExp,
     JSBoundMethod,
+    JS_WHITESPACE,
     to_string,
     to_number,
     to_integer_or_infinity,
@@ -819,35 +821,8 @@ class Context:
             return sign * result
 
         def parseFloat_fn(*args):
-            s = to_string(args[0]) if args else ""
-            s = s.strip()
-            if not s:
-                return float("nan")
-            # Find the longest valid float prefix
-            i = 0
-            has_dot = False
-            has_exp = False
-            if s[i] in "+-":
-                i += 1
-            while i < len(s):
-                if s[i].isdigit():
-                    i += 1
-                elif s[i] == "." and not has_dot:
-                    has_dot = True
-                    i += 1
-                elif s[i] in "eE" and not has_exp:
-                    has_exp = True
-                    i += 1
-                    if i < len(s) and s[i] in "+-":
-                        i += 1
-                else:
-                    break
-            if i == 0:
-                return float("nan")
-            try:
-                return float(s[:i])
-            except ValueError:
-                return float("nan")
+            # Number.parseFloat is the global parseFloat
+            return self._global_parsefloat(*args)
 
         num_constructor.set("isNaN", isNaN_fn)
         num_constructor.set("isFinite", isFinite_fn)
@@ -1174,45 +1149,19 @@ class Context:
             return float("nan")
         return sign * result
 
+    # StrDecimalLiteral: what parseFloat reads from the front of its argument
+    _STR_DECIMAL_PREFIX = re.compile(
+        r"[+-]?(?:Infinity|(?:[0-9]+\.?[0-9]*|\.[0-9]+)(?:[eE][+-]?[0-9]+)?)"
+    )
+
     def _global_parsefloat(self, *args):
         """Global parseFloat."""
-        s = to_string(args[0]) if args else ""
-        s = s.strip()
-        if not s:
+        s = to_string(args[0]) if args else "undefined"
+        match = self._STR_DECIMAL_PREFIX.match(s.lstrip(JS_WHITESPACE))
+        if match is None:
             return float("nan")
-
-        # Handle Infinity
-        if s.startswith("Infinity"):
-            return float("inf")
-        if s.startswith("-Infinity"):
-            return float("-inf")
-        if s.startswith("+Infinity"):
-            return float("inf")
-
-        i = 0
-        has_dot = False
-        has_exp = False
-        if s[i] in "+-":
-            i += 1
-        while i < len(s):
-            if s[i].isdigit():
-                i += 1
-            elif s[i] == "." and not has_dot:
-                has_dot = True
-                i += 1
-            elif s[i] in "eE" and not has_exp:
-                has_exp = True
-                i += 1
-                if i < len(s) and s[i] in "+-":
-                    i += 1
-            else:
-                break
-        if i == 0:
-            return float("nan")
-        try:
-            return float(s[:i])
-        except ValueError:
-            return float("nan")
+        # float() reads "Infinity" with a sign as well as every decimal literal
+        return float(match.group())
 
     def eval(self, code: str) -> Any:
         """Evaluate JavaScript code and return the result.
